@@ -12,7 +12,12 @@ Local Open Scope N_scope.
 Record obs := { o_ok : bool; o_val : jval; o_jok : bool; o_jval : jval }.
 Record case := { c_text : bytes; c_nums : list (bytes * N); c_obs : obs }.
 
-Definition agree (c : case) : bool :=
+(* the property's domain: JSON text whose strings have no murex escapes *)
+Definition in_domain (text : bytes) : bool :=
+  negb (existsb (fun c => mem c [92; 36; 126; 40; 41]) text).
+
+(* correspondence, part 1: the model of the literal parser predicts murex *)
+Definition agree_lit (c : case) : bool :=
   match lit_parse (c_text c) with
   | Ok j =>
     match resolve (c_nums c) j with
@@ -24,9 +29,27 @@ Definition agree (c : case) : bool :=
   | Panic | OutOfFuel => false
   end.
 
-(* the property's domain: JSON text whose strings have no murex escapes *)
-Definition in_domain (text : bytes) : bool :=
-  negb (existsb (fun c => mem c [92; 36; 126; 40; 41]) text).
+(* part 2: the plain JSON parser of the theorem predicts encoding/json on the
+   same text (inside the property's domain) *)
+Definition agree_json (c : case) : bool :=
+  if in_domain (c_text c) then
+    match c_text c with
+    | 37 :: txt =>
+      match json_parse txt with
+      | Ok j =>
+        match resolve (c_nums c) j with
+        | Some v => o_jok (c_obs c) && jval_eqb v (o_jval (c_obs c))
+        | None => true
+        end
+      | Err 9 => true
+      | Err _ => negb (o_jok (c_obs c))
+      | Panic | OutOfFuel => false
+      end
+    | _ => true
+    end
+  else true.
+
+Definition agree (c : case) : bool := agree_lit c && agree_json c.
 
 (* The property: a literal written in JSON syntax builds the value that parsing
    the same text as JSON gives. *)
